@@ -1107,6 +1107,35 @@ fn oracle_limits(kind: &str, rng: &mut Rng, n: usize, tier: &str) -> OracleRepor
             rep.fail(&format!("{}_limits", kind), format!("{} first={:?} second={:?}", desc(&prog, &env, flags), a, b));
         }
     }
+    if kind == "restrict" {
+        // LIMITS also bounds the scalar of g1_multiply / g2_multiply (1024 bytes): valid points, scalars of
+        // every length class, both cost models; a run that succeeds under LIMITS is identical without it
+        let g1 = call(30, vec![quote(int(rng.range(1, 1000) as i128))]);
+        let g2 = call(57, vec![quote(T::Atom(rng.bytes(5)))]);
+        for (opcode, point) in [(50u8, &g1), (54u8, &g2)] {
+            for len in [0usize, 1, 2, 5, 31, 32, 33, 255, 256, 1023, 1024, 1025, 2048] {
+                for lead in [0x01u8, 0x7f, 0x80, 0x00] {
+                    let mut scalar = rng.bytes(len);
+                    if len > 0 {
+                        scalar[0] = lead;
+                    }
+                    let prog = call(opcode, vec![point.clone(), quote(T::Atom(scalar))]);
+                    let env = atom(&[]);
+                    for base in [0u32, NEW_COST_MODEL, MALACHITE, clvmr::chia_dialect::MEMPOOL_MODE.bits()] {
+                        let flags = base | LIMITS;
+                        let a = run_full("chia", flags, 0, &prog, &env, "");
+                        let b = run_full("chia", flags & !LIMITS, 0, &prog, &env, "");
+                        rep.evaluations += 1;
+                        rep.nontrivial += 1;
+                        rep.hit(match &a.res { Ok(_) => "bls_ok", Err((k, _)) => k.as_str() });
+                        if a.res.is_ok() && a != b {
+                            rep.fail("restrict_limits", format!("{} first={:?} second={:?}", desc(&prog, &env, flags), a, b));
+                        }
+                    }
+                }
+            }
+        }
+    }
     rep
 }
 
